@@ -16,6 +16,7 @@ import (
 	"time"
 
 	"github.com/slackhq/nebula/header"
+	"go.yaml.in/yaml/v3"
 	"pgregory.net/rapid"
 	"verifkit/vk"
 )
@@ -248,6 +249,45 @@ func nsApplyOp(rt *rapid.T, h *nsHist, op string) {
 		w.nodes[x].ctrl.ReHandshake(w.specs[y].nets[0].Addr())
 		s.settle()
 		h.note("rehandshake %s->%s", w.specs[x].name, w.specs[y].name)
+	case "blocklistReload":
+		// node x reloads its configuration with identity y blocklisted (pki.blocklist is reloadable);
+		// from this instant x must not complete a handshake with y, including one already under way
+		x := nsPickLive(rt, w, "bl.node")
+		y := rapid.IntRange(0, len(w.specs)-1).Draw(rt, "bl.peer")
+		if x < 0 || x == y || w.nodes[y] == nil || w.dynBlock[x][y] {
+			return
+		}
+		n := w.nodes[x]
+		mc := nsM{}
+		if err := yaml.Unmarshal([]byte(n.rawCfg), &mc); err != nil {
+			rt.Fatalf("yaml: %v", err)
+		}
+		pk, _ := mc["pki"].(nsM)
+		var bl []string
+		if old, ok := pk["blocklist"].([]any); ok {
+			for _, o := range old {
+				bl = append(bl, fmt.Sprint(o))
+			}
+		}
+		for _, c := range w.nodes[y].id.certs {
+			fp, _ := c.Fingerprint()
+			bl = append(bl, fp)
+		}
+		pk["blocklist"] = bl
+		b, _ := yaml.Marshal(mc)
+		n.rawCfg = string(b)
+		if err := n.cfg.ReloadConfigString(string(b)); err != nil {
+			rt.Fatalf("reload: %v", err)
+		}
+		s.settle()
+		if w.dynBlock == nil {
+			w.dynBlock = map[int]map[int]bool{}
+		}
+		if w.dynBlock[x] == nil {
+			w.dynBlock[x] = map[int]bool{}
+		}
+		w.dynBlock[x][y] = true
+		h.note("%s reloads with %s blocklisted", w.specs[x].name, w.specs[y].name)
 	case "stop":
 		x := nsPickLive(rt, w, "stop.node")
 		if x < 0 {
